@@ -4,19 +4,16 @@ import Dassh.Gen.C07T3
 import Dassh.Gen.C07T4
 import Dassh.Gen.C07T5
 import Dassh.Gen.C07T6
-import Dassh.Gen.C07T7
-import Dassh.Gen.C07T8
-import Dassh.Gen.C07T9
 
 namespace Dassh.Gen.C07All
 
-def ringCounts : List Nat := [2, 3, 4, 5, 6, 7, 8, 9]
+def ringCounts : List Nat := [2, 3, 4, 5, 6]
 
-def allCerts : List Bool := Dassh.Gen.C07T2.certs ++ Dassh.Gen.C07T3.certs ++ Dassh.Gen.C07T4.certs ++ Dassh.Gen.C07T5.certs ++ Dassh.Gen.C07T6.certs ++ Dassh.Gen.C07T7.certs ++ Dassh.Gen.C07T8.certs ++ Dassh.Gen.C07T9.certs
+def allCerts : List Bool := Dassh.Gen.C07T2.certs ++ Dassh.Gen.C07T3.certs ++ Dassh.Gen.C07T4.certs ++ Dassh.Gen.C07T5.certs ++ Dassh.Gen.C07T6.certs
 
 theorem all_ok : allCerts.all (· = true) = true := by
-  simp only [allCerts, List.all_append, Bool.and_self, Dassh.Gen.C07T2.certs_ok, Dassh.Gen.C07T3.certs_ok, Dassh.Gen.C07T4.certs_ok, Dassh.Gen.C07T5.certs_ok, Dassh.Gen.C07T6.certs_ok, Dassh.Gen.C07T7.certs_ok, Dassh.Gen.C07T8.certs_ok, Dassh.Gen.C07T9.certs_ok]
+  simp only [allCerts, List.all_append, Bool.and_self, Dassh.Gen.C07T2.certs_ok, Dassh.Gen.C07T3.certs_ok, Dassh.Gen.C07T4.certs_ok, Dassh.Gen.C07T5.certs_ok, Dassh.Gen.C07T6.certs_ok]
 
-def AllAutos : Prop := Dassh.Gen.C07T2.Autos ∧ Dassh.Gen.C07T3.Autos ∧ Dassh.Gen.C07T4.Autos ∧ Dassh.Gen.C07T5.Autos ∧ Dassh.Gen.C07T6.Autos ∧ Dassh.Gen.C07T7.Autos ∧ Dassh.Gen.C07T8.Autos ∧ Dassh.Gen.C07T9.Autos
-theorem all_autos : AllAutos := ⟨Dassh.Gen.C07T2.autos, Dassh.Gen.C07T3.autos, Dassh.Gen.C07T4.autos, Dassh.Gen.C07T5.autos, Dassh.Gen.C07T6.autos, Dassh.Gen.C07T7.autos, Dassh.Gen.C07T8.autos, Dassh.Gen.C07T9.autos⟩
+def AllAutos : Prop := Dassh.Gen.C07T2.Autos ∧ Dassh.Gen.C07T3.Autos ∧ Dassh.Gen.C07T4.Autos ∧ Dassh.Gen.C07T5.Autos ∧ Dassh.Gen.C07T6.Autos
+theorem all_autos : AllAutos := ⟨Dassh.Gen.C07T2.autos, Dassh.Gen.C07T3.autos, Dassh.Gen.C07T4.autos, Dassh.Gen.C07T5.autos, Dassh.Gen.C07T6.autos⟩
 end Dassh.Gen.C07All
